@@ -60,6 +60,27 @@ def run(pid, tier, seed, replay):
     gen += r["generated"]
     dist += r["distinct"]
     log("  Timers.tla (shape mirroring the code): %d distinct states, CancelledNeverFires/AtMostOnce/PendingSet/IdFree hold" % r["distinct"])
+    # the same model as an inductive invariant (Apalache): the C17 invariants hold for any number of steps
+    d = vlib.fresh_dir(pid, "mc_ind")
+    r2 = vlib.tlc_ok(d, "TimersInd.tla", "TimersInd.cfg", workers=4, timeout=1800, heap="4g")
+    gen += r2["generated"]
+    dist += r2["distinct"]
+    if r2["distinct"] != r["distinct"]:
+        raise vlib.CannotRun("TimersInd.tla (%d states) has drifted from Timers.tla, shape early (%d states)" % (r2["distinct"], r["distinct"]))
+    apal = "skipped"
+    import shutil as _sh
+    if _sh.which("apalache-mc"):
+        ok = True
+        for init, length in (("IndInit", "1"), ("Init", "0")):
+            p = vlib.run(["timeout", "600", "apalache-mc", "check", "--init=" + init, "--inv=IndInv", "--length=" + length, "--out-dir=" + os.path.join(d, "apalache-out"), "TimersInd.tla"],
+                         cwd=d, timeout=700, check=False)
+            if "The outcome is: NoError" not in p.stdout:
+                ok = False
+                log("  Apalache (%s, length %s) did not confirm the inductive invariant:\n%s" % (init, length, p.stdout[-800:]))
+        apal = "inductive invariant confirmed (IndInit/length 1 and Init/length 0)" if ok else "not confirmed"
+        if not ok:
+            raise vlib.CannotRun("Apalache did not confirm IndInv of TimersInd.tla")
+    log("  TimersInd.tla: same %d states under TLC; Apalache: %s" % (r2["distinct"], apal))
     scheds = set()
     for cfg in ("MC_Timers_late_export.cfg", "MC_Timers_early_export.cfg"):
         d = vlib.fresh_dir(pid, "mc_" + cfg[:-4])
@@ -170,7 +191,7 @@ def run(pid, tier, seed, replay):
         "evaluations": judged, "distinct_nontrivial": sum(v for k, v in stats_all.items() if k.endswith(".firings")),
         "rule": "gate schedules = complete behaviours (<= 9 steps) of Timers.tla over one id and two timer generations, both shapes; handler scenarios issue requests from inside the firing handler; "
                 "stress = seeded free-running requests over two ids; non-trivial = firings observed",
-        "judge_stats": stats_all, "exhaustive": False,
+        "judge_stats": stats_all, "exhaustive": False, "apalache": apal,
         "unrealisable_schedules": stats_all.get("schedules.histories", 0) - stats_all.get("schedules.realised", 0),
         "known_findings_hit": {k: v["count"] for k, v in rep.known.items()},
     }, ASSUME, time.time() - t0, len(rep.violations))
